@@ -1,9 +1,14 @@
 #!/bin/bash
 # usage: tools/mutpatch.sh <patch-file> <checks...> — apply a patch to /repo, run checks, revert.
+# Refuses to start on a /repo with uncommitted changes and reverts on every exit path.
 p=$1; shift
+if [ -n "$(git -C /repo status --porcelain --untracked-files=no)" ]; then echo "REFUSED: /repo has uncommitted changes"; exit 3; fi
+revert() { git -C /repo checkout -- . ; }
+trap revert EXIT
+trap 'revert; exit 130' INT TERM HUP
 git -C /repo apply "$p" || { echo "PATCH DID NOT APPLY"; exit 3; }
 git -C /repo diff --stat | tail -1
 cd /verif
-for c in "$@"; do timeout 1500 ./check $c 2>&1 | grep -E "VIOLATION|INFRA|violations=" | cut -c1-400 | head -4; done
-git -C /repo checkout -- .
+for c in "$@"; do timeout 1500 ./check $c 2>&1 | grep -E "VIOLATION|INFRA|NOTE|violations=" | cut -c1-400 | head -6; done
+revert
 ./check --build-only
